@@ -106,11 +106,67 @@ def _behaviour(T, inputs):
             out.append(["default_dumps", type(e).__name__])
     except Exception as e:  # noqa: BLE001
         out.append(["default", type(e).__name__])
+    # instance behaviour: a default instance mutated in place must not show through in the next default instance
+    try:
+        d1 = T()
+        first = observe(d1, anon=True)
+        _mutate_in_place(d1)
+        d2 = T()
+        out.append(["default_after_mutating_another_default", observe(d2, anon=True) == first])
+    except Exception as e:  # noqa: BLE001
+        out.append(["default_after_mutating_another_default", type(e).__name__])
     try:
         out.append(["len", len(T)])
     except TypeError:
         out.append(["len", "dynamic"])
     return out
+
+
+def _mutate_in_place(v, depth=0):
+    """Change every mutable sub-object of an instance in place (list elements, nested structure fields)."""
+    from dissect.cstruct.types import Structure
+    from dissect.cstruct.types.structure import UnionProxy
+
+    if depth > 4:
+        return
+    if isinstance(v, UnionProxy):
+        return
+    if isinstance(v, Structure):
+        for f in type(v).__fields__:
+            try:
+                x = getattr(v, f._name)
+            except AttributeError:
+                continue
+            if isinstance(x, list):
+                if x and isinstance(x[0], (Structure, list)):
+                    _mutate_in_place(x[0], depth + 1)
+                elif x and isinstance(x[0], int) and not isinstance(x[0], bool):
+                    try:
+                        x[0] = type(x[0])(1) if type(x[0]) is not int else 1
+                    except Exception:  # noqa: BLE001
+                        x.append(1)
+                else:
+                    x.append(1)
+            elif isinstance(x, Structure) and not hasattr(x, "_buf"):
+                _mutate_in_place(x, depth + 1)
+                for g in type(x).__fields__:
+                    y = getattr(x, g._name, None)
+                    if type(y).__mro__[1:2] and isinstance(y, int) and not isinstance(y, bool) and g.bits is None:
+                        try:
+                            object.__setattr__(x, g._name, type(y)(1))
+                        except Exception:  # noqa: BLE001
+                            pass
+                        break
+    elif isinstance(v, list):
+        if v and isinstance(v[0], (Structure, list)):
+            _mutate_in_place(v[0], depth + 1)
+        elif v:
+            try:
+                v[0] = type(v[0])(1)
+            except Exception:  # noqa: BLE001
+                v.append(1)
+        else:
+            v.append(1)
 
 
 def _sig(T, name):
